@@ -21,7 +21,8 @@ class Hier:
     pass
 
 
-def build(rnd):
+def build(rnd, rnd2=None):
+    rnd2 = rnd2 or lib.random.Random(0)
     """returns a Hier with .top (Module), .root (wishbone.Decoder), .regs (list of register-like
     resources with .element), .srams, and a structural description for the Lean model"""
     h = Hier()
@@ -73,11 +74,22 @@ def build(rnd):
         aw = rnd.randint(1, aw_max)
         if kind == "bridge":
             b = csr.Builder(addr_width=aw, data_width=cdw)
+            clustered, used_mux = [], False
             for i in range(rnd.randint(1, 3)):
                 w = rnd.choice([1, cdw, cdw + 3, 2 * cdw, 3 * cdw])
                 try:
-                    with b.Cluster("c") if rnd.random() < .3 else _null():
-                        b.add(f"r{i}", csr.Register(csr.Field(csr.action.RW, w), access="rw"))
+                    incl = rnd.random() < .3
+                    nm = f"r{i}"
+                    # legal names whose `__`-joined form is already taken inside the bridge (own random stream)
+                    x = rnd2.random()
+                    if x < .12 and not used_mux and not incl:
+                        nm, used_mux = "mux", True
+                    elif x < .24 and clustered and not incl:
+                        nm = f"c__{clustered[-1]}"
+                    with b.Cluster("c") if incl else _null():
+                        b.add(nm, csr.Register(csr.Field(csr.action.RW, w), access="rw"))
+                    if incl:
+                        clustered.append(nm)
                 except ValueError:
                     pass
             try:
@@ -142,7 +154,7 @@ class _null:
 
 def run_impl(case):
     rnd = lib.rng_for(case["seed"], case["idx"], 101)
-    h = build(rnd)
+    h = build(rnd, lib.rng_for(case["seed"], case["idx"], 111))
     root, gb, cdw, ratio = h.root, h.gb, h.cdw, h.ratio
     mmap = root.bus.memory_map
     infos = list(mmap.all_resources())
@@ -269,6 +281,16 @@ def run_impl(case):
                 fails.append(("C01", f"writing {i.path}: a read strobe was seen", i.start))
             if mem_snapshot() != before:
                 fails.append(("C01", f"writing {i.path} changed SRAM contents", i.start))
+            # a register made of one plain RW field: what was written through the root is what the root reads back
+            if isinstance(getattr(i.resource, "field", None), csr.action.RW) and el.access.readable() and el.access.writable():
+                want = sum(v << (k * cdw) for k, v in enumerate(vals)) & ((1 << el.width) - 1)
+                got = []
+                for k in range(n):
+                    acked, v, seen = await transfer(i.start + k, 0, 0)
+                    got.append(v if acked else None)
+                stats["readbacks"] = stats.get("readbacks", 0) + 1
+                if got != [(want >> (k * cdw)) & gmask for k in range(n)]:
+                    fails.append(("C01", f"{i.path} at {i.start}..{i.end}: wrote {want:#x} through the root, read back chunks {got}", i.start))
         # ---- back-to-back: an access to an unassigned address presented in the very cycle after the
         # acknowledge of a CSR or SRAM access (strobe held through the acknowledge, no idle cycle)
         free = [a for a in range(naddr) if owner[a] is None and not any(s_ <= a < e_ for s_, e_ in bridge_windows)]
